@@ -180,3 +180,17 @@ PROPS.update({
     "C17": _mach_prop(["hash pre-image resistance (a hash does not contain its input) is a cryptographic assumption; the harness' byte scan checks it empirically on every store change and log line",
                        "every logger call site with its argument expressions is pinned by the regenerated logCalls_* tables (T1); the model proves where mailed tokens go and that the repaired confirm log line carries no request data"]),
 })
+
+PROPS.update({
+    "C18": {
+        "ties": MACH_TIES,
+        "streams": {"quick": [{"name": "c18", "n": 0}, {"name": "c18r", "n": 60, "seeds": 3}, MACH_QUICK],
+                    "thorough": [{"name": "c18", "n": 0}, {"name": "c18r", "n": 300, "seeds": 12}, MACH_THOROUGH]},
+        "level": "proof",
+        "assumptions": [SYMBOLIC,
+                        "every call that leaves the library goes through one fault oracle in the model (storage, hasher, renderer, mailer, SMS sender, OAuth2 exchange / user details); the theorems quantify over all oracles",
+                        "proved: a failing Save / token use / hash / render stores nothing and is reported; save-before-session ordering for the one-time password, the remember token and recovery codes at both second-factor steps. Decided by the exhaustive fault enumeration through the correspondence check instead of a theorem: no panic over the dispatch table, no success response for an unsaved change per route",
+                        "lock.Middleware / confirm.Middleware panic on a storage error by documented design: known finding K3"],
+        "trusted_base": MACH_TB,
+    },
+})
